@@ -29,6 +29,13 @@ type MyStr string
 type Dur2 time.Duration
 type BuildNS mg.Namespace
 
+// look-alikes of context.Context: they implement it (a context.Context value is even assignable from them) without being it
+type wrapCtx struct{ context.Context }
+type wideCtx interface {
+	context.Context
+	Extra()
+}
+
 type tyDesc struct {
 	name string // model name
 	t    reflect.Type
@@ -56,6 +63,9 @@ var tyPool = []tyDesc{
 	{"other6", reflect.TypeOf(Dur2(0)), func(i int) interface{} { return Dur2(i) }},
 	{"other7", reflect.TypeOf(time.Time{}), func(i int) interface{} { return time.Time{} }},
 	{"slice:str", reflect.TypeOf([]string{}), func(i int) interface{} { return []string{"x"} }},
+	{"other8", reflect.TypeOf(wrapCtx{}), func(i int) interface{} { return wrapCtx{context.Background()} }},
+	{"other9", reflect.TypeOf(&wrapCtx{}), func(i int) interface{} { return &wrapCtx{context.Background()} }},
+	{"other10", reflect.TypeOf((*wideCtx)(nil)).Elem(), func(i int) interface{} { return nil }},
 }
 
 func tyByModel(name string) *tyDesc {
@@ -133,7 +143,11 @@ func c14(c *Ctx) {
 			ins = append(ins, tyPool[6+r.Intn(3)]) // receiver
 		}
 		if r.Chance(1, 2) {
-			ins = append(ins, tyPool[4]) // context
+			if r.Chance(1, 6) {
+				ins = append(ins, tyPool[17+r.Intn(3)]) // something that merely implements context.Context, where the context goes
+			} else {
+				ins = append(ins, tyPool[4]) // context
+			}
 		}
 		n := r.Intn(4)
 		for i := 0; i < n; i++ {
@@ -247,6 +261,7 @@ func c14(c *Ctx) {
 		// what mg.F sees of an argument is its dynamic type: a value taken from the interface{}-typed pool entry is a string
 		for i, a := range args {
 			if a == nil {
+				argNames[i] = nil
 				continue
 			}
 			if _, isCtx := a.(context.Context); isCtx {
@@ -358,7 +373,14 @@ func idFB(a int, b bool, d time.Duration) { atomic.AddInt64(&identCount, 1) }
 func idFI(a int, b int)                   { atomic.AddInt64(&identCount, 1) }
 func idFD(a int, d time.Duration)         { atomic.AddInt64(&identCount, 1) }
 
+// case twins of the above: different functions whose names differ in letter case only
+func IdF1(a int)           { atomic.AddInt64(&identCount, 1) }
+func IDF1(a int)           { atomic.AddInt64(&identCount, 1) }
+func idfs(a int, s string) { atomic.AddInt64(&identCount, 1) }
+
 type IdNS mg.Namespace
+
+func (IdNS) m1(a int) { atomic.AddInt64(&identCount, 1) }
 
 func (IdNS) M1(a int)           { atomic.AddInt64(&identCount, 1) }
 func (IdNS) M2(a int)           { atomic.AddInt64(&identCount, 1) }
@@ -374,7 +396,11 @@ var identFns = []identFn{
 	{"idF1", idF1, ""}, {"idF2", idF2, ""}, {"idFS", idFS, "s"}, {"idFSS", idFSS, "ss"}, {"idFV", idFV, "v"},
 	{"idFB", idFB, "bd"}, {"idFI", idFI, "i"}, {"idFD", idFD, "d"},
 	{"IdNS.M1", IdNS.M1, ""}, {"IdNS.M2", IdNS.M2, ""}, {"IdNS.MS", IdNS.MS, "s"},
+	{"IdF1", IdF1, ""}, {"IDF1", IDF1, ""}, {"idfs", idfs, "s"}, {"IdNS.m1", IdNS.m1, ""},
 }
+
+// names equal up to letter case (indices into identFns)
+var identCaseTwins = [][2]int{{0, 11}, {0, 12}, {11, 12}, {2, 13}, {8, 14}}
 
 // the same methods named as method values (known finding D28: a different runtime symbol, "…-fm")
 var identMethodValues = []identFn{{"IdNS.M1", IdNS{}.M1, ""}, {"IdNS.MS", IdNS{}.MS, "s"}}
@@ -429,6 +455,10 @@ func identStream(c *Ctx) {
 		b := a
 		if r.Chance(1, 3) {
 			b = identFns[r.Intn(len(identFns))]
+		}
+		if r.Chance(1, 8) {
+			tw := identCaseTwins[r.Intn(len(identCaseTwins))]
+			a, b = identFns[tw[0]], identFns[tw[1]]
 		}
 		mv := false
 		if c.Prop == "C01" && r.Chance(1, 15) {
